@@ -614,17 +614,18 @@ def _cvc5_check(solver, timeout_ms):
             pass
 
 
-def has_quantifier(e):
-    seen = set()
-    todo = [e]
-    while todo:
-        t = todo.pop()
-        if t.get_id() in seen:
-            continue
-        seen.add(t.get_id())
-        if z3.is_quantifier(t):
-            return True
-        todo.extend(t.children())
+def has_quantifier(e, depth=6):
+    """Quantifiers only occur in the boolean skeleton of specifications: descend through connectives only
+    (never into terms such as store chains), to a small depth."""
+    if z3.is_quantifier(e):
+        return True
+    if depth == 0 or not z3.is_app(e):
+        return False
+    k = e.decl().kind()
+    if k in (z3.Z3_OP_AND, z3.Z3_OP_OR, z3.Z3_OP_NOT, z3.Z3_OP_IMPLIES, z3.Z3_OP_ITE, z3.Z3_OP_EQ, z3.Z3_OP_IFF):
+        if k == z3.Z3_OP_EQ and not z3.is_bool(e.arg(0)):
+            return False
+        return any(has_quantifier(c, depth - 1) for c in e.children())
     return False
 
 
